@@ -66,9 +66,7 @@ def _query(t, kind):
 
     try:
         if hasattr(t, "pseudoinverse") and kind not in ("WithDimsList", "WithDimsSlice"):
-            inv = t.pseudoinverse()
-            if hasattr(inv, "pseudoinverse"):
-                inv.pseudoinverse()
+            t.pseudoinverse()
         c = t.copy()
         for name in ("n_dims", "n_dims_output", "has_true_inverse", "n_parameters", "n_points", "n_tris"):
             getattr(t, name, None)
